@@ -32,7 +32,7 @@ def plan(tier, seed):
             for n in range(0, maxn + 1):
                 if tier == 'quick' and ((ic and n < 2) or (n == 4 and gn not in ('choice', 'closure', 'memo_prefix'))):
                     continue
-                if tier == 'quick' and ic and n == 3 and gn not in ('closure', 'memo_prefix'):
+                if tier == 'quick' and ic and n == 3 and gn not in ('closure',):
                     continue        # case folding on symbolic text costs about 1 s per path: two grammars at length 3 in the quick tier
                 directives = directive + ('@@ignorecase :: True\n' if ic else '')
                 spec = {'grammar': gn, 'rules': rules, 'n': n, 'directives': directives, 'decorators': {r: ['name'] for r in name_rules},
@@ -46,7 +46,7 @@ def plan(tier, seed):
                 # reference-free pair: without @name the grammar accepts a superset and agrees wherever the value is not a keyword
             # ignorecase given at PARSE time instead of as a directive (the keyword table must be folded for that parse)
             if ic and gn in ('choice', 'closure', 'named_value'):
-                for n in ((2, 3) if gn == 'closure' or tier != 'quick' else (2,)):
+                for n in ((2, 3) if tier != 'quick' else (2,)):
                     spec = {'grammar': gn, 'rules': rules, 'n': n, 'directives': directive, 'decorators': {r: ['name'] for r in name_rules}, 'settings': {'ignorecase': True},
                             'ref': {'keywords': kws, 'name_rules': name_rules, 'ignorecase': True}, 'gen': True, 'warm': WARM}
                     obs.append(Ob(name=f'{gn}_ic-at-parse-time_L{n}', factory='vt.pegbody:make_peg', spec=spec, params=[(f'c{i}', 0, UNI) for i in range(n)],
